@@ -70,6 +70,48 @@ def timeout_scenarios(rng, n):
     return scs
 
 
+def mixed_scenarios(rng, n):
+    """apply tasks with a task_timeout are in flight (one of them overruns) while a map-family call WITHOUT any timeout runs on the same
+    pool: only the overrunning apply task fails"""
+    scs = []
+    for _ in range(n):
+        nj = rng.choice([2, 3, 4])
+        k = rng.randint(1, nj - 1)
+        slow = rng.randrange(k)
+        a = {'op': 'apply_batch', 'defer_wait': True, 'tasks': [{'idx': i} for i in range(k)], 'task_timeout': 0.2, 'get_timeout': 30,
+             'dur': {'kind': 'map', 'map': {str(slow): rng.choice([0.6, 1.0, 5.0])}, 'default': 0.01}}
+        m = {'op': rng.choice(['map', 'map_unordered', 'imap', 'imap_unordered']), 'n': rng.randint(4, 12), 'chunk_size': 1, 'elem': 'scalar',
+             'dur': {'kind': 'hash', 'salt': rng.randint(0, 99), 'unit': 0.02}}
+        scs.append({'seed': rng.randint(0, 10 ** 6), 'pool': {'n_jobs': nj, 'start_method': 'fork'}, 'ops': [a, m, {'op': 'apply_collect', 'of': 0}],
+                    'same_func': False, 'relax_shape': True, 'slow': slow})
+    return scs
+
+
+def mixed_judge(chk, sc, o):
+    if o.get('harness_error'):
+        return
+    case = {'scenario': sc}
+    if o.get('stuck'):
+        chk.violation('apply_timeout_isolated', case, o['stuck'], 'nothing hangs', input_class='mixed_hang')
+        return
+    ops = o.get('ops', [])
+    if len(ops) < 3:
+        return
+    if ops[1].get('outcome') != 'ok':
+        chk.violation('apply_timeout_isolated', case, {'map_call': ops[1].get('outcome'), 'raised': ops[1].get('exc')},
+                      'for apply tasks only the overrunning task fails: a map-family call without timeouts running at the same time is not affected',
+                      input_class='apply_timeout_kills_map')
+    for (i, kind, val, ready) in ops[0].get('apply', []):
+        want = ('raise', 'TimeoutError') if i == sc['slow'] else ('ok', oracles_value(i))
+        if (kind, val) != want:
+            chk.violation('apply_timeout_isolated', case, {'task': i, 'got': (kind, val), 'expected': want}, 'only the overrunning apply task gets TimeoutError', input_class='apply_timeout_wrong_task')
+
+
+def oracles_value(i):
+    from harness import oracles
+    return oracles.value_of(i)
+
+
 def judge(chk, sc, o):
     if o.get('harness_error') or o.get('stuck'):
         return
@@ -121,6 +163,11 @@ def run(chk):
                                             'keep_alive_history': len(sc['ops']) > 1})
     for sc, o in zip(scs, obs):
         judge(chk, sc, o)
+    ms = mixed_scenarios(rng, 80 if chk.tier == 'quick' else 1200)
+    mobs = run_scenarios(chk, 'an apply task times out while a map-family call without timeouts runs on the same pool (DetSim)', ms, {'C01', 'C02'},
+                         nontrivial=lambda sc, o: True, dist=lambda sc, o: {'map_kind': sc['ops'][1]['op'], 'n_jobs': sc['pool']['n_jobs']})
+    for sc, o in zip(ms, mobs):
+        mixed_judge(chk, sc, o)
     # the running-task hand-shake of every interrupted worker instance vs Mpire.Kill.step
     klines, krefs = [], []
     for sc, o in zip(scs, obs):
